@@ -71,6 +71,12 @@ func c18DbStack(c *vk.Ctx) {
 		}
 		c.Eval(vk.Hash64(key), len(langs) >= 2)
 		c.Count("dbstack_histories", 1)
+		for _, f := range a.Funcs {
+			if f.Kind == "static" {
+				c.Count("dbstack_static_loads_kept_in_the_store", 1)
+				c.Count("dbstack_static_load_translations", int64(len(f.Trans)))
+			}
+		}
 		c.Count("dbstack_histories:"+v.res+"-resources/"+map[bool]string{true: "long-lived", false: v.ses + "-sessions"}[v.ses == ""], 1)
 		for step, w := range want {
 			g := d.Request([]byte(hist[step]))
